@@ -52,7 +52,7 @@ func genC18(rng *rand.Rand, tier string) *C18Plan {
 		case "dirstruct":
 			p.Ops = append(p.Ops, []string{"abs", "rel", "reldir", "child", "child2"}[rng.IntN(5)])
 		case "scan":
-			p.Ops = append(p.Ops, "scan")
+			p.Ops = append(p.Ops, []string{"scan", "scan", "scanrel"}[rng.IntN(3)])
 		default:
 			p.Ops = append(p.Ops, "entry")
 		}
@@ -221,6 +221,15 @@ func execC18(p *C18Plan, rc *simkit.RunCtx) {
 				name += "/"
 			}
 			target = filepath.Clean(name)
+		case op == "scanrel":
+			// a relative scan root as spelled: it names a place relative to the working directory of the process
+			// (which is outside the storage directory here)
+			name = strings.Join(segs, "/")
+			cwd, _ := os.Getwd()
+			target = filepath.Clean(filepath.Join(cwd, name))
+			if name == "" {
+				target = root // documented: the empty root means the storage directory itself
+			}
 		case op == "child2":
 			target = filepath.Clean(filepath.Join(root, "a", name))
 		default:
@@ -272,7 +281,7 @@ func execC18(p *C18Plan, rc *simkit.RunCtx) {
 				err = ds.ChildDir(name, 0o755).Ensure()
 			case "child2":
 				err = ds.ChildDir("a", 0o755).ChildDir(name, 0o700).Ensure()
-			case "scan":
+			case "scan", "scanrel":
 				err = reg.ScanStorage(name)
 			case "entry":
 				err = unpackWith(reg, root, name, rc)
